@@ -131,7 +131,7 @@ def encode_summary(rng, props, cp, layout="plain"):
 
 
 def encode_db(rng, ptype, cp, tables, summary, streams, long_refs=False, holes=0.0, dups=0.0, overcount=0.0, stale=0.0,
-              validation=True, shuffle_catalog=False, odd_int_sizes=False, layout="plain", orphan_validation=()):
+              validation=True, shuffle_catalog=False, odd_int_sizes=False, layout="plain", orphan_validation=(), ragged=()):
     """tables: {name: (cols, rows)} (rows need not be sorted) -> (clsid, [(entry name, bytes)], expected)"""
     pool = Pool(rng, cp, long_refs, holes, dups, overcount, stale)
     tnames = sorted(tables)
@@ -163,7 +163,10 @@ def encode_db(rng, ptype, cp, tables, summary, streams, long_refs=False, holes=0
     for n in tnames:
         cols, rows = tables[n]
         rows = rows if shuffle_catalog else sort_rows(cols, rows)
-        entries.append((msidec.encode_name(n, True), encode_table(cols, rows, pool)))
+        data = encode_table(cols, rows, pool)
+        if n in ragged:
+            data += b"\x01\x80"          # bytes after the last whole row: readers take the whole rows and ignore the rest
+        entries.append((msidec.encode_name(n, True), data))
         expected_rows[n] = [[None if v == "" else v for v in r] for r in rows]
     entries.append((msidec.encode_name("_Tables", True), encode_table(TABLES_COLS, trows, pool)))
     entries.append((msidec.encode_name("_Columns", True), encode_table(COLUMNS_COLS, crows, pool)))
